@@ -38,6 +38,16 @@ CLAIMED.update({
    note="Trusts RefEval. Negative integer patterns cannot be written in the grammar; range patterns against a scrutinee of another kind are counted as unspecified.",
    technique="exhaustive table enumeration of control-flow programs, differential against a reference interpreter"),
 })
+CLAIMED.update({
+ "C03": dict(level="model_checking", design="4.3",
+   text="Every shape over the 18 binary operators (all ordered pairs in both nesting positions; all five shapes of three operators over an 8-operator subset, all 18 in thorough), every prefix operator against every binary operator, itself, index and call, postfix chains, and assignment (chained, index targets, right-hand sides starting with a prefix operator, a group or a postfix expression) is rendered minimally and fully parenthesised; both texts run on the real pipeline for every leaf assignment and must agree in value/error and side effects (deciding, differential); the real parser's own fully parenthesised rendering of both texts must equal the intended tree (structural).",
+   note="Trusts the harness's transcription of docs/language/expression-precedence.md. Trees deeper than three binary operators are not covered.",
+   technique="exhaustive enumeration of expression shapes x leaf assignments, differential minimal-vs-parenthesised on the real parser/compiler/VM"),
+ "C07": dict(level="model_checking", design="4.7",
+   text="Explicit-state exploration of the compiled bytecode: for each of ~9500 programs (28 statement contexts keeping 0-3 operands pending x 5 jump-carrying fillers x 4 loop shapes x every break/continue x 3 positions; 49 kinds of looped statements at top level and inside a function; all <=2-statement sequences of the C02 pool) the graph over (function, ip, operand-stack height) is explored with both branch edges taken, i.e. to a fixpoint covering every iteration count; invariants: one height per ip, never negative, jumps land on instruction boundaries, height 0 at every top-level statement boundary. The model is bound to the code by replaying every program's concrete VM trace (hook) against the explored graph; looping programs are re-run for 5000 (thorough 12000) iterations and must not overflow.",
+   note="The stack-effect table is a model of the implementation; every concrete trace is checked against it and, on a mismatch, the property is decided on the concrete trace itself (a mismatch with a balanced trace is a machinery error, exit 2). One known finding (jump-with-pending-operands) is matched by an exact defect model.",
+   technique="explicit-state model checking of the bytecode control-flow graph (fixpoint over stack heights) with trace conformance against the real VM"),
+})
 NOT_YET = "check not built yet in this round (machinery under construction; see DESIGN.md section 4 for the planned check)"
 
 props = [json.loads(l) for l in open(os.path.join(HERE, "properties.jsonl"))]
@@ -66,7 +76,7 @@ m = {
    "guard": "p2sh_verif",
    "enable": "RUSTFLAGS=\"--cfg p2sh_verif\" cargo build (hooked binary, into /verif/.cache/target-bin-*); the in-process harness /verif/mc compiles /repo/src/** via #[path] with cfg p2sh_verif set by its build.rs",
    "baseline_off_cmd": "cd /repo && cargo test --workspace --no-fail-fast --offline",
-   "source_commits": [],
+   "source_commits": ["7f14a35", "d9ef2da"],
    "add_only": True,
  },
  "engines": [{
